@@ -1,8 +1,10 @@
-(* Pack/QuoteModel.v — %q of a string: Go's strconv.Quote (what lib/stringlib/format.go's
-   quote() calls) transcribed from strconv/quote.go (appendQuotedWith, appendEscapedRune)
+(* Pack/QuoteModel.v — %q of a string: lib/stringlib/format.go's quoteString (round-2
+   repair: strconv.Quote piece by piece, except that a valid non-printable rune >= 0x80 is
+   written \u{XXX}); strconv.Quote transcribed from strconv/quote.go (appendQuotedWith, appendEscapedRune)
    and unicode/utf8 (DecodeRuneInString), and the reader of Lua string literals written
    from the Lua 5.4 manual §3.1.  unicode.IsPrint is a parameter.  No proofs here. *)
 From Coq Require Import ZArith List Bool.
+From GV Require Import Pack.NumStrModel.
 Import ListNotations.
 Open Scope Z_scope.
 
@@ -57,8 +59,7 @@ Definition escape_rune (r : Z) (raw : list Z) : list Z :=
   else if r =? 10 then [92; 110] else if r =? 13 then [92; 114] else if r =? 9 then [92; 116]
   else if r =? 11 then [92; 118]
   else if (r <? 32) || (r =? 127) then [92; 120; hexdigit (r / 16); hexdigit (r mod 16)]
-  else if r <? 65536 then 92 :: 117 :: hex_run r 4
-  else 92 :: 85 :: hex_run r 8.
+  else 92 :: 117 :: 123 :: digits false 16 r ++ [125].      (* fmt.Fprintf(&b, "\\u{%x}", r) *)
 
 Fixpoint quote_go (fuel : nat) (s : list Z) : list Z :=
   match fuel with
